@@ -221,7 +221,9 @@ class LS(object):
         solution : Tuple
             Solution found (array_like) and optimization information (dictionary).
         """
-        solution = least_squares(self.func, self.x0, jac=self.jacfun, \
+        # If no Jacobian is given, let the solver approximate it (scipy's default finite-difference scheme)
+        jac = self.jacfun if self.jacfun is not None else '2-point'
+        solution = least_squares(self.func, self.x0, jac=jac, \
                                 method=self.method, loss=self.loss, xtol=self.tol, max_nfev=self.maxit)
         info = {"success": solution['success'],
                 "message": solution['message'],
